@@ -263,6 +263,30 @@ def f():
     late = [lambda: i for i in range(3)]
     return big, y, seen, total, [g() for g in fs], [g() for g in late]
 """,
+    "try-except-same-function-bare-raise-hierarchy": """
+def g(x):
+    try:
+        if x == 0:
+            raise ValueError("zero")
+        return {}[x]
+    except LookupError:
+        return "lookup"
+def h(x):
+    log = []
+    try:
+        try:
+            g(x)
+        except ValueError as e:
+            log.append("inner")
+            raise
+        finally:
+            log.append("finally")
+    except Exception:
+        log.append("outer")
+    return log
+def f():
+    return g(1), h(0), h(1)
+""",
     "walrus-in-generator-expression": """
 from itertools import count
 def f():
